@@ -36,6 +36,9 @@ CHECKS = {
  'C14': dict(engine='cases', tech='basis-function families transcribed as TLA+ expression trees (spec/Calculus.tla); TLC computes gradient and Hessian by symbolic differentiation, proves off-coordinate derivatives structurally zero (invariant ZeroOffCoordinate) and enumerates family x parameter x index x point; generic evaluator + replay against the library objects',
              text='TLC is used as symbolic engine and case enumerator (no interleavings exist here): for every family, parameter set, dimension, coordinate and rational point it emits value, gradient and full Hessian expressions; the library value, partial, partial2 (all direction pairs), gradient, hessian and array evaluation must agree to 1e-9.',
              note='trusted: TLC derivative operator D, harness/evaluator.py; assumes the documented formulas of the families', ref='§5 C14'),
+ 'C15': dict(engine='cases', tech='TLA+ reference of transformed data tensors (spec/Transform.tla: leaves per layout, exact integer tensor and Gram matrix computed by TLC; CalcBase family expressions), configurations enumerated by TLC, replay against basis_decomposition / coordinate_major / function_major / gram / hocur',
+             text='TLC enumerates dimension, snapshot count (incl. 1), modes, function lists (incl. single-function modes, indicator and transcendental mixtures), the three layouts with add_one on/off and Gram pairs, and computes the exact tensor for integer bases; the library train, every single core, the Gram matrix and the HOCUR result (ranks = #snapshots, int and re-used list form) are compared.',
+             note='trusted: TLC, harness/evaluator.py for transcendental leaves (cross-checked against TLC on exact cases); known finding F11 (HOCUR candidate deficiency) is classified by an explicit rank test of the documented initial candidate columns', ref='§5 C15'),
 }
 NA_REASON = 'check not built yet (work in progress)'
 
